@@ -103,6 +103,27 @@ Proof.
 Qed.
 Print Assumptions C07_holds.
 
+(* the driver's `covered` flag (C07.Entry.entry) implies the hypotheses of C07_holds *)
+Lemma C07_validb_valid c : validb c = true -> valid c.
+Proof.
+  unfold validb, valid, kind_consistent. intros H.
+  repeat match type of H with _ && _ = true => apply andb_true_iff in H; destruct H as [H ?] end.
+  repeat match goal with X : negb _ = true |- _ => apply negb_true_iff in X end.
+  repeat split.
+  - destruct (t_nv c) as [a b]; cbn in *; subst; reflexivity.
+  - apply N.leb_le; assumption.
+  - destruct (size_known (t_kind c)); [apply N.eqb_eq; assumption|exact Logic.I].
+  - destruct (t_wrap c) as [w|]; [|discriminate].
+    match goal with X : negb (w =? 65535)%N = true |- _ => apply negb_true_iff in X; apply N.eqb_neq in X end.
+    congruence.
+Qed.
+Theorem C07_covered_cases : forall c, Monitor.validb c && validb c = true -> holds c (run_model c) = [].
+Proof.
+  intros c H. apply andb_true_iff in H as [H1 H2]. apply C07_holds. split;
+    [apply MonitorProofs.validb_valid; exact H1|apply C07_validb_valid; exact H2].
+Qed.
+Print Assumptions C07_covered_cases.
+
 (* the repaired defects violate the rules *)
 Theorem C07_blksize_rule_refuted_D2 :
   exists lim na k opts,
